@@ -115,6 +115,11 @@ def run_scenario(job):
         plan += [(k, 'eacces') for k in range(1, n_candidates + 1)
                  if counter.candidates[k - 1]['op'] in ('open', 'unlink', 'rename', 'replace')
                  and counter.candidates[k - 1]['obj'].startswith(('loose:', 'dup:'))]
+        # pack_all_loose treats a PermissionError anywhere in the copy of one loose object (opening it, reading it, appending
+        # it to the pack) as 'this file is locked, skip it': the same flavour at the writes into the pack while packing
+        if scenario.kind == 'pack':
+            plan += [(k, 'eacces') for k in range(1, n_candidates + 1)
+                     if counter.candidates[k - 1]['op'] == 'write' and counter.candidates[k - 1]['obj'].startswith('pack:')]
         for k, flavour in plan:
             run = os.path.join(work, f'run{k}{flavour}')
             shutil.copytree(os.path.dirname(base), run)
